@@ -1,13 +1,14 @@
 SPECIFICATION Spec
 CONSTANTS
   Sender = {"s1", "s2"}
-  MaxNonce = 3
+  MaxNonce = 2
   StateNonce = {0, 1}
   MaxCost = 8
   BuiltIn <- MCBuiltIn
   BiName = "payFees"
-  Class = {"ok", "fail", "stale", "sc", "bi"}
-  MaxPool = 4
+  Class = {"ok", "fail", "bi"}
+  MaxPool = 3
   FilterBuiltins = TRUE
+VIEW View
 INVARIANTS NoDuplicate ConsecutiveNonces CostLimit BuiltinsOnce VerifierAgrees
 CHECK_DEADLOCK FALSE
